@@ -136,6 +136,10 @@ def count_unsafe(src):
     impls = len(re.findall(r"\bunsafe\s+impl\b", code))
     # raw memory *access* primitives (pointer arithmetic such as `ptr.add` / `as_mut_ptr` is not an access)
     raw = len(re.findall(r"\bptr::\w+|get_unchecked|from_raw_parts|transmute|from_ptr\b|\.offset\(|[.:]read_unaligned\(|[.:]write_unaligned\(|[.:]read_volatile\(|[.:]write_volatile\(|\.as_ref\(\)\.unwrap_unchecked", code))
+    # dereferences of raw pointers: the re-borrow idioms `&*p` / `&mut *p`, and every `as_ptr()` / `as_mut_ptr()` that does
+    # not feed one of the `ptr::copy` calls counted above
+    raw += len(re.findall(r"&\s*(?:mut\s+)?\*\s*[\w$(]", code))
+    raw += max(0, len(re.findall(r"\.as_(?:mut_)?ptr\(\)", code)) - len(re.findall(r"\bptr::copy\w*", code)))
     return blocks, fns, impls, raw
 
 
